@@ -331,6 +331,8 @@ func runDecode(c *Ctx) {
 	emit(decodeCase{Kind: "corpus", Doc: hx("version: '3'\ntasks:\n  'a(': {cmds: [echo]}\n  'x*': {cmds: [echo]}\n"), Req: "a(", Note: "regexp metachar name"})
 	emit(decodeCase{Kind: "corpus", Doc: hx("version: '3'\ntasks:\n  t:\n    sources:\n      - \n"), Note: "nil glob entry"})
 	emit(decodeCase{Kind: "corpus", Doc: hx("version: '3'\nvars:\n  A: 2024-01-01\ntasks: {t: {cmds: ['echo {{.A}}']}}\n"), Note: "timestamp variable"})
+	emit(decodeCase{Kind: "corpus", Doc: hx("version: '3'\ntasks: {build: {cmds: [echo]}}\n"), Req: strings.Repeat("a", 2500), Note: "very long unknown task name (did-you-mean lookup is cubic in the length)"})
+	emit(decodeCase{Kind: "corpus", Doc: hx("version: '3'\ntasks: {build: {aliases: [b], cmds: [echo]}}\n"), Req: strings.Repeat("build", 400), Note: "very long unknown task name made of a known one"})
 	// (a) shapes × positions
 	total := len(decShapes) * len(decPositions)
 	n := total // the whole product in both tiers (a few seconds): a sampled quick tier kept missing the one pair that mattered
